@@ -88,7 +88,10 @@ def _run_one(args) -> Dict[str, Any]:
     env["PYTHONPATH"] = f"{workdir}:{common.VERIF}"
     env["PYTHONHASHSEED"] = "0"
     env["VERIF_UNDER_CROSSHAIR"] = "1"
+    # only read-only directory-enumeration events are unblocked (harness modules parse DSDL namespaces at import time);
+    # every mutating event stays blocked: harnesses write to the in-memory FakeFS
     cmd = ["timeout", "-k", "5", str(int(4 * timeout + 120)), CROSSHAIR, "check", "--report_all",
+           "--unblock", "pathlib.Path.rglob", "pathlib.Path.glob", "pathlib.Path.walk", "os.listdir", "os.scandir", "os.walk", "glob.glob", "glob.glob/2",
            "--per_condition_timeout", str(timeout), "--per_path_timeout", str(path_timeout), f"{module}.{func}"]
     t = time.time()
     p = subprocess.run(cmd, cwd=workdir, env=env, stdout=subprocess.PIPE, stderr=subprocess.PIPE, text=True)
